@@ -1,9 +1,20 @@
 // Command vcheck dispatches to one check: vcheck <id> <quick|thorough>.
+//
+// The check itself runs in a child process (same binary, VERIF_CHILD=1). If the child is killed by a
+// fatal runtime error (stack overflow, unrecovered panic in a goroutine started by the code under
+// test, concurrent map write, ...) whose stack contains frames of the repository under verification,
+// the supervisor reports that as a violation with the crash log as replay artefact. A crash without
+// repository frames is a machinery failure (exit 3), never a violation.
 package main
 
 import (
+	"bytes"
 	"fmt"
 	"os"
+	"os/exec"
+	"path/filepath"
+	"runtime/debug"
+	"strings"
 
 	_ "verifharness/checks"
 	"verifharness/core"
@@ -12,19 +23,57 @@ import (
 func main() {
 	if len(os.Args) < 3 {
 		fmt.Fprintln(os.Stderr, "usage: vcheck <id> <quick|thorough>; ids:", core.IDs())
-		os.Exit(2)
+		os.Exit(3)
 	}
 	id, tier := os.Args[1], os.Args[2]
 	if tier != "quick" && tier != "thorough" {
 		fmt.Fprintln(os.Stderr, "tier must be quick or thorough")
-		os.Exit(2)
+		os.Exit(3)
 	}
 	ch, ok := core.Lookup(id)
 	if !ok {
 		fmt.Fprintln(os.Stderr, "unknown check", id, "; ids:", core.IDs())
-		os.Exit(2)
+		os.Exit(3)
 	}
-	c := core.New(id, tier, ch.Level)
-	ch.Run(c)
-	os.Exit(c.Finish())
+	if os.Getenv("VERIF_CHILD") == "1" {
+		debug.SetMaxStack(256 << 20) // runaway recursion dies quickly instead of eating 1 GB
+		c := core.New(id, tier, ch.Level)
+		ch.Run(c)
+		os.Exit(c.Finish())
+	}
+	cmd := exec.Command(os.Args[0], os.Args[1:]...)
+	cmd.Env = append(os.Environ(), "VERIF_CHILD=1")
+	cmd.Stdout = os.Stdout
+	var errb bytes.Buffer
+	cmd.Stderr = &errb
+	err := cmd.Run()
+	code := 0
+	if err != nil {
+		code = 3
+		if ee, ok := err.(*exec.ExitError); ok {
+			code = ee.ExitCode()
+		}
+	}
+	if code == 0 || code == 1 || code == 3 {
+		os.Stderr.Write(errb.Bytes())
+		os.Exit(code)
+	}
+	// crash of the child (Go runtime exits with 2; -1 = killed by a signal)
+	log := errb.String()
+	tail := log
+	if len(tail) > 6000 {
+		tail = tail[:3000] + "\n...\n" + tail[len(tail)-3000:]
+	}
+	crash := filepath.Join(core.VerifDir, "replays", id+"_process-crash.json")
+	if strings.Contains(log, "github.com/wollac/iota-crypto-demo/") {
+		os.MkdirAll(filepath.Dir(crash), 0o755)
+		first := strings.SplitN(log, "\n", 4)
+		os.WriteFile(crash, []byte(fmt.Sprintf("{\n \"property\": %q,\n \"key\": %q,\n \"what\": %q,\n \"log\": %q\n}\n",
+			id, id+"/process-crash", "the check's process died inside repository code: "+strings.Join(first[:min(3, len(first))], " | "), tail)), 0o644)
+		fmt.Printf("VIOLATION property=%s replay=%s\n  key=%s/process-crash: %s\n", id, crash, id, strings.Join(first[:min(3, len(first))], " | "))
+		os.Exit(1)
+	}
+	fmt.Fprintln(os.Stderr, tail)
+	fmt.Printf("CRASH property=%s (no repository frames in the stack; machinery failure, exit code %d)\n", id, code)
+	os.Exit(3)
 }
